@@ -191,7 +191,7 @@ def run_rest(ctx, PM, f, FLAG):
         io = []
         for p in gp:
             for e in p.events:
-                if e[1] == "call" and (e[2] == PM.read_def or (facts.effects_at(f, e[0]) & {"BLOCK-IO", "WAIT-TURN-R", "WAIT-TURN-W", "CHAN-RECV"})):
+                if e[1] == "call" and (e[2] in (PM.read_def, PM.read_p, PM.read_entry) or (facts.effects_at(f, e[0]) & {"BLOCK-IO", "WAIT-TURN-R", "WAIT-TURN-W", "CHAN-RECV"})):
                     io.append(short(e[2]))
         ok = bool(gp) and all(p.end[0] == "return" and p.ret() == ("none",) for p in gp) and not io
         ctx.ob("C12.2", "%s|flag-set-returns-none" % PM.cc_next.id, "with the flag set, next() returns None without touching the socket (every call is gated)", ok, "%s:%d" % (f.file, f.line),
@@ -199,7 +199,7 @@ def run_rest(ctx, PM, f, FLAG):
     for nv in sorted(x for x in PM.flag_open if x is not None):
         st = symex.Sym(f)
         st.write_key((1, "*", "." + FLAG), PM.flag_term(nv))
-        gp = absint.explore(f, 0, st, stop=lambda bb, t, s: "read" if t["t"] == "call" and call_name(t) == PM.read_def else None)
+        gp = absint.explore(f, 0, st, stop=lambda bb, t, s: "read" if PM.is_read_entry(t) else None)
         ctx.ob("C12.2", "%s|flag-clear-reads" % PM.cc_next.id, "with the flag clear, next() goes on to read a request", any(p.end[0] == "stop" for p in gp), "%s:%d" % (f.file, f.line))
 
     # ---- C12.3 half-close
